@@ -4,6 +4,7 @@ package demos
 
 import (
 	"bytes"
+	"fmt"
 	"path/filepath"
 	"runtime"
 	"strings"
@@ -453,5 +454,46 @@ func TestF15_FileSizeOnMemAfterRestart(t *testing.T) {
 			t.Errorf("%s: FileSize after a clean restart = %d, %v", tc.name, n, err)
 		}
 		db.Close()
+	}
+}
+
+// F16 (C10): an operation that loses the race with Close must fail WITHOUT an effect. After a compaction
+// had removed every segment, a Put issued after Close created a new segment file and appended its record
+// before failing on the closed index; a later recovery made the failed Put visible.
+func TestF16_PutAfterCloseLeavesNoTrace(t *testing.T) {
+	fsys := simfs.New()
+	o := opts(fsys, 1024, 1, 0.01, false)
+	db := mustOpen(t, fsys, o)
+	val := bytes.Repeat([]byte("v"), 100)
+	for i := 0; i < 3; i++ {
+		if err := db.Put([]byte("a"), val); err != nil {
+			t.Fatal(err)
+		}
+	}
+	if err := db.Delete([]byte("a")); err != nil {
+		t.Fatal(err)
+	}
+	if _, err := db.Compact(); err != nil { // every record is dead: all segments go away
+		t.Fatal(err)
+	}
+	before := fsys.Snapshot().Names()
+	if err := db.Close(); err != nil {
+		t.Fatal(err)
+	}
+	closed := fsys.Snapshot().Names()
+	err := func() (err error) {
+		defer func() {
+			if e := recover(); e != nil {
+				err = fmt.Errorf("panic: %v", e)
+			}
+		}()
+		return db.Put([]byte("late"), []byte("x"))
+	}()
+	if err == nil {
+		t.Fatalf("Put after Close succeeded")
+	}
+	after := fsys.Snapshot().Names()
+	if fmt.Sprint(after) != fmt.Sprint(closed) {
+		t.Errorf("a Put that failed after Close (%v) changed the directory:\n open:   %v\n closed: %v\n after:  %v", err, before, closed, after)
 	}
 }
